@@ -55,9 +55,10 @@ lsearchk_t::result_t lsearchk_t::get(solver_state_t& state, const vector_t& desc
         step_size *= 0.3;
         logger.warn("[lsearchk-", type_id(), "]: t=", step_size, "... initial step length is too large!\n");
     }
-    if (!state.valid())
+    if (!state.valid() || !(step_size > 0.0))
     {
         // no trial step produced a valid state: the state is not the evaluation at the current step size
+        // (NB: the step can underflow to zero, where the state is trivially valid again)
         return {false, step_size};
     }
 
